@@ -411,7 +411,7 @@ def json_exception_cell(cell):
             except Exception:  # noqa: BLE001
                 out = "error"
             res["outcomes"].add(("json-exception", out if out in ("old", "new", "error") else "hybrid"))
-            if k % 3 == 0:
+            if True:   # every injection point (a sampled subset hid one between the resize and the write of the series file)
                 # the caller catches the error and simply repeats the call: a complete save, so the folder must restore as the new state
                 try:
                     with quiet():
